@@ -20,7 +20,35 @@ import (
 type c05Case struct {
 	Bytes []byte `json:"bytes"`
 	Text  string `json:"text"`
-	Regex []int  `json:"regex"` // at the i-th token that starts with '/', 1 = ScanRegex, 0 = Scan
+	Regex []int  `json:"regex"`          // at the i-th token that starts with '/', 1 = ScanRegex, 0 = Scan
+	Long  int    `json:"long,omitempty"` // a generated text of this many lines (names, blanks, a comment now and then)
+}
+
+// c05long: a text of a few megabytes tiles like a short one, and its last token stands on its last line.
+func c05long(lines int) []ev.Finding {
+	var b strings.Builder
+	for i := 0; i < lines; i++ {
+		switch i % 4 {
+		case 0:
+			fmt.Fprintf(&b, "w%d  v\n", i)
+		case 1:
+			fmt.Fprintf(&b, "'s%d' 12\r\n", i)
+		case 2:
+			fmt.Fprintf(&b, "-- c%d\n", i)
+		default:
+			fmt.Fprintf(&b, "\"q%d\",x\n", i)
+		}
+	}
+	b.WriteString("last_one")
+	fs, _, _ := c05evalOne(c05Case{Bytes: []byte(b.String())})
+	for i := range fs {
+		fs[i].Case = c05Case{Long: lines}
+		fs[i].Witness = fmt.Sprintf("a generated text of %d lines (%d bytes)", lines, b.Len())
+		if len(fs[i].Detail) > 300 {
+			fs[i].Detail = fs[i].Detail[:300]
+		}
+	}
+	return fs
 }
 
 type c05tok struct {
@@ -508,6 +536,9 @@ func init() {
 		if json.Unmarshal(raw, &c) != nil {
 			return nil
 		}
+		if c.Long > 0 {
+			return c05long(c.Long)
+		}
 		if c.Text == "parse-error" {
 			return c05errorPos(string(c.Bytes))
 		}
@@ -541,6 +572,13 @@ func c05run(r *ev.Run) {
 			r.Report(f)
 		}
 		for _, f := range c05errorPos(text) {
+			r.Report(f)
+		}
+	}
+	for _, lines := range []int{1000, 150000, 400000} {
+		r.Eval()
+		r.State(astx.HashString(fmt.Sprint("LONG|", lines)), true)
+		for _, f := range c05long(lines) {
 			r.Report(f)
 		}
 	}
